@@ -999,7 +999,26 @@ var modelStopKinds = []string{"close", "short", "outofseq", "err", "eof"}
 // modeC04g replays every session TLC generated from MC_Session: the model's fault actions become the attempt plans
 // (fault kind and the number of packets consumed before it), all attempts run on ONE Streamer with hook tracing, and
 // the model's predictions travel in the scenario line for the replay (DRIFT.session).
-func modeC04g(e *Env) {
+func modeC04g(e *Env) { replaySessions(e, "c04g", func(i int, hist []interface{}) bool { return true }) }
+
+// modeC17g: the sessions in which the model injects an invalid packet (C17: no partial effect, error, resume position).
+func modeC17g(e *Env) {
+	replaySessions(e, "c17g", func(i int, hist []interface{}) bool {
+		for _, hi := range hist {
+			if hi.(map[string]interface{})["fault"].(string) == "inject-invalid" {
+				return true
+			}
+		}
+		return false
+	})
+}
+
+// modeC07g: a quarter of the sessions (quick) / all of them (thorough): every attempt's handshake (C07).
+func modeC07g(e *Env) {
+	replaySessions(e, "c07g", func(i int, hist []interface{}) bool { return e.Thorough() || i%4 == 0 })
+}
+
+func replaySessions(e *Env, fam string, keep func(i int, hist []interface{}) bool) {
 	var cfgs []WireCfg
 	for _, c := range allCfgs() {
 		if !c.Gtid {
@@ -1010,7 +1029,7 @@ func modeC04g(e *Env) {
 	for i, s := range e.ReadScenarios() {
 		units, _ := s["units"].([]interface{})
 		hist, _ := s["attempts"].([]interface{})
-		if len(hist) == 0 {
+		if len(hist) == 0 || !keep(i, hist) {
 			continue
 		}
 		l := logFromModel(e.R, cfgs[i%len(cfgs)], units)
@@ -1045,12 +1064,12 @@ func modeC04g(e *Env) {
 			atts = append(atts, a)
 		}
 		id++
-		RunStreamScenario(e.Rec, &StreamScenario{ID: id, Fam: "c04g", Log: l, Start: l.Boundaries()[0], ServerID: 11,
+		RunStreamScenario(e.Rec, &StreamScenario{ID: id, Fam: fam, Log: l, Start: l.Boundaries()[0], ServerID: 11,
 			Attempts: atts, Note: "tlc-session", Model: M{"attempts": hist, "expected": s["expected"]}})
 	}
 }
 
-func init() { modes["c04g"] = modeC04g }
+func init() { modes["c04g"] = modeC04g; modes["c17g"] = modeC17g; modes["c07g"] = modeC07g }
 
 // ---- schedules generated by TLC (spec/Gen_Conn.tla) --------------------------------------------------------------
 
